@@ -498,8 +498,13 @@ pub fn run(tier: &str, seed: u64) -> i32 {
         c.dedup = true;
         chain.push(c);
     }
+    for (sname, spec) in &sets {
+        let mut spec = spec.clone();
+        spec.derives_for.clear();
+        chain.push(Case::new(RegSrc::Prog(real_shapes_program()), spec, format!("D-real {sname}")));
+    }
     report.add(sweep(
-        "D-chain(polkadot: every variant / struct of every item without generic parameters x 5 settings)",
+        "D-chain(polkadot: every variant / struct of every item without generic parameters x settings) + D-real(real-metadata shapes)",
         &chain,
         Duration::from_secs(120),
         |c| json!({"case": c.note}),
